@@ -295,7 +295,7 @@ func genCase(rt *rapid.T) Case {
 		Content: rapid.SampledFrom([]string{"noise", "noise", "smooth", "extremes", "blocks", "stripes", "checker", "constant"}).Draw(rt, "content"),
 		Seed:    rapid.Uint32().Draw(rt, "seed")}
 	if rapid.Bool().Draw(rt, "moved") {
-		c.OX = rapid.SampledFrom([]int{1, 2, 3, 4, 7, 8, 64, -1, -2, -3, -8, -64, 100, 1000}).Draw(rt, "ox")
+		c.OX = rapid.SampledFrom([]int{0, 0, 1, 2, 3, 4, 7, 8, 64, -1, -2, -3, -8, -64, 100, 1000}).Draw(rt, "ox")
 		c.OY = rapid.SampledFrom([]int{0, 1, 2, 3, 5, 8, -1, -2, -7, -64, 33}).Draw(rt, "oy")
 	}
 	if c.Ratio != "444" && (c.OX < 0 || c.OY < 0) {
@@ -351,7 +351,7 @@ func TestProp(t *testing.T) {
 	idx := 0
 	for _, n := range []int{64, 256} {
 		for _, ratio := range []string{"444", "422", "420", "440", "411", "410"} {
-			for _, lay := range []Case{{}, {OX: 1, OY: 1}, {OX: 3, OY: 2}, {OX: 1, OY: 1, PadL: 1, PadR: 2, PadT: 1, PadB: 1}, {OX: 8, OY: 0, PadL: 8, PadR: 8}, {DestOff: 1}, {OX: 64, OY: 64, PadL: 3, PadT: 2, PadR: 1, PadB: 0, DestOff: 4}} {
+			for _, lay := range []Case{{}, {OX: 1, OY: 1}, {OX: 0, OY: 8}, {OX: 8, OY: 0}, {OX: 3, OY: 2}, {OX: 1, OY: 1, PadL: 1, PadR: 2, PadT: 1, PadB: 1}, {OX: 8, OY: 0, PadL: 8, PadR: 8}, {DestOff: 1}, {OX: 64, OY: 64, PadL: 3, PadT: 2, PadR: 1, PadB: 0, DestOff: 4}} {
 				idx++
 				if idx%rec.Env.Shards != rec.Env.Shard || n == 256 && !rec.Env.Thorough() && idx%3 != 0 {
 					continue
